@@ -122,6 +122,9 @@ func (s *initFlowSynchronizationImpl) Clear() {
 	s.externalAgentsRegisteredGate.Clear()
 	s.runtimeReadyGate.Clear()
 	s.agentReadyGate.Clear()
+	// Agents of the next initialization may report ready before SetAgentsReadyCount
+	// is called; they must not be refused against the count of the previous one.
+	_ = s.agentReadyGate.SetCount(maxAgentsLimit)
 	s.runtimeRestoreReadyGate.Clear()
 }
 
